@@ -67,6 +67,18 @@ static void check_is(const char* want, int n, const char* what) {
 #define REFUSED(call, what) if (NONHEAP) { expect_throw = 1; expect_exc = ValueError; COVER_ALT(1, what " on a stack String"); call; ASSERT(0, "[C19] " what " on a stack String raises ValueError instead of reallocating"); return; }
 
 void h_assign(void) { build(); REFUSED(String_Assign(sa, sb), "assign") String_Assign(sa, sb); check_is(in_b, LB, "assign"); ASSERT(sa->val != bbuf, "[C10] assign copies the characters, it does not share the buffer"); COVER_ALT(1, "assign"); }
+/* C09: cmp on Strings is the C library's order on the two texts: the sign of the first differing byte pair compared as unsigned
+ * char (the end of the shorter text counts as 0), whatever code computes it */
+void h_cmp(void) {
+  build();
+  int want = 0; for (int i = 0; i <= LA && i <= LB; i++) { unsigned char x = (unsigned char)in_a[i], y = (unsigned char)in_b[i]; if (x != y) { want = x < y ? -1 : 1; break; } }
+  int r = String_Cmp(sa, sb), q = String_Cmp(sb, sa);
+  ASSERT((r < 0) == (want < 0) && (r > 0) == (want > 0), "[C09] cmp on Strings is the byte-wise lexicographic order of the C library (bytes as unsigned char, prefix first)");
+  ASSERT((q < 0) == (want > 0) && (q > 0) == (want < 0), "[C09] cmp(b, a) has the opposite sign of cmp(a, b)");
+  ASSERT(String_Cmp(sa, sa) == 0, "[C09] a String compares equal to itself");
+  for (int i = 0; i <= LA; i++) ASSERT(sa->val[i] == in_a[i], "cmp leaves its operands alone");
+  COVER_ALT(want < 0, "smaller"); COVER_ALT(want > 0, "greater"); COVER_ALT(want == 0, "equal texts");
+}
 /* operand overlapping the target: ALIAS 1 = the String itself, ALIAS 2 = a stack String viewing the target's own buffer from offset 1 */
 #ifndef ALIAS
 #define ALIAS 1
